@@ -1,2 +1,350 @@
-(* C05_proofs.v — OverlappingFieldsCanBeMerged: lemmas for properties/C05.v *)
-From GTP Require Export C05_base_proofs.
+(* C05_proofs.v — OverlappingFieldsCanBeMerged: lemmas for properties/C05.v.
+   Components (arguments, type conflict, collected field map): C05_base_proofs.v.
+   The memoised search on one selection set without named spreads: C05_merge_proofs.v.
+   Here: the rule on whole documents without named fragment spreads. *)
+From GT Require Import Visitor Validate Merge.
+From GTS Require Import SpecLin Annot WfSchema SpecCollect SpecRules SpecMerge SpecValid.
+From GTP Require Import VisitorFacts TraceFacts RuleFacts EventFacts.
+From GTP Require Export C05_base_proofs C05_merge_proofs.
+
+(* ------------------------------------------------------------------ no spreads: no cycles *)
+Lemma spreads_in_flat_map {A} (g : A -> list selection) l :
+  spreads_in (flat_map g l) = flat_map (fun x => spreads_in (g x)) l.
+Proof. induction l as [|x r IH]; cbn [flat_map]; [reflexivity|]. rewrite spreads_in_app, IH. reflexivity. Qed.
+
+Lemma flat_map_nil_each {A B} (f : A -> list B) l x : flat_map f l = [] -> In x l -> f x = [].
+Proof.
+  induction l as [|y r IH]; cbn [flat_map]; intros H Hin; [destruct Hin|].
+  apply app_eq_nil in H. destruct H as [H1 H2]. destruct Hin as [->|Hin]; [exact H1|exact (IH H2 Hin)].
+Qed.
+
+Lemma spread_closure_nil k d : spread_closure k d [] = [].
+Proof. induction k as [|k IH]; [reflexivity|]. cbn [spread_closure flat_map app dedup_names]. exact IH. Qed.
+
+Lemma flat_map_nil_in {A B} (f : A -> list B) l : (forall x, In x l -> f x = []) -> flat_map f l = [].
+Proof.
+  induction l as [|y r IH]; intro H; cbn [flat_map]; [reflexivity|].
+  rewrite (H y (or_introl eq_refl)), IH; [reflexivity|]. intros x Hx. apply H. right. exact Hx.
+Qed.
+
+Lemma no_cycles_sf d : spreads_in (flat_map def_sels d) = [] -> v_no_fragment_cycles d = false.
+Proof.
+  intro H. rewrite spreads_in_flat_map in H. unfold v_no_fragment_cycles.
+  apply not_true_is_false. intro Hex. apply existsb_exists in Hex. destruct Hex as [n [_ Hn]].
+  assert (E : fragment_spreads d n = []).
+  { unfold fragment_spreads. apply flat_map_nil_in. intros f Hf.
+    destruct (name_eqb (fr_name f) n); [|reflexivity].
+    unfold fragments_of in Hf. apply in_flat_map in Hf. destruct Hf as [x [Hx Hf]].
+    destruct x as [o|g]; [destruct Hf|]. destruct Hf as [<-|[]].
+    exact (flat_map_nil_each _ d (DFrag g) H Hx). }
+  rewrite E in Hn. cbn [dedup_names] in Hn. rewrite spread_closure_nil in Hn. discriminate.
+Qed.
+
+(* ------------------------------------------------------------------ selection sets of a document *)
+Definition pk_selset (n : node) : list (list selection) :=
+  match n with NSelectionSet _ ss => [ss] | _ => [] end.
+
+Lemma pk_selset_low n : low_node n = true -> pk_selset n = [].
+Proof. destruct n; try discriminate; reflexivity. Qed.
+
+Lemma dirs_pick_selset dirs : dirs_pick pk_selset dirs = [].
+Proof. unfold dirs_pick. apply flat_map_nil_in. intros dr _. reflexivity. Qed.
+
+Lemma node_pick_selset y sels : In sels (node_pick pk_selset y) -> sels = sel_sels y.
+Proof.
+  unfold node_pick. rewrite dirs_pick_selset. cbn [app].
+  destruct y; cbn [sel_node pk_selset sel_set_pick app sel_sels]; intro H; try (destruct H as [<-|[]]; reflexivity).
+  destruct H.
+Qed.
+
+Lemma selset_in_doc d sp sels : In (Enter (NSelectionSet sp sels)) (lin_document d) ->
+  exists x, In x d /\ (sels = def_sels x \/ exists y, In y (sels_all (def_sels x)) /\ sels = sel_sels y).
+Proof.
+  intro H.
+  assert (Hp : In sels (flat_map (pick pk_selset) (lin_document d))).
+  { apply in_flat_map. exists (Enter (NSelectionSet sp sels)). split; [exact H|left; reflexivity]. }
+  rewrite (pick_document pk_selset pk_selset_low) in Hp. cbn [pk_selset app] in Hp.
+  apply in_flat_map in Hp. destruct Hp as [x [Hx Hp]]. exists x. split; [exact Hx|].
+  destruct x as [o|f]; cbn [def_pick def_sels pk_selset app] in *; rewrite dirs_pick_selset in Hp; cbn [app] in Hp.
+  - apply in_app_or in Hp. destruct Hp as [Hp|Hp].
+    { apply in_flat_map in Hp. destruct Hp as [v [_ []]]. }
+    destruct Hp as [<-|Hp]; [left; reflexivity|]. right.
+    apply in_flat_map in Hp. destruct Hp as [y [Hy Hp]]. exists y. split; [exact Hy|apply node_pick_selset, Hp].
+  - destruct Hp as [<-|Hp]; [left; reflexivity|]. right.
+    apply in_flat_map in Hp. destruct Hp as [y [Hy Hp]]. exists y. split; [exact Hy|apply node_pick_selset, Hp].
+Qed.
+
+(* the selections below a selection set of the document form a segment of the document's selections *)
+Lemma seg_sel x : forall y, In y (sel_all x) -> exists l1 l3, sel_all x = l1 ++ sels_all (sel_sels y) ++ l3.
+Proof.
+  induction x as [p al n args dirs sp sels IH|p n dirs|p tc dirs sp sels IH] using selection_ind'; intros y Hy;
+    cbn [sel_all] in Hy |- *.
+  - destruct Hy as [<-|Hy].
+    + exists [SField p al n args dirs sp sels], []. cbn [sel_sels app]. rewrite app_nil_r. reflexivity.
+    + apply in_flat_map in Hy. destruct Hy as [z [Hz Hy]]. rewrite Forall_forall in IH.
+      destruct (IH z Hz y Hy) as [l1 [l3 E]]. destruct (in_split z sels Hz) as [s1 [s2 ->]].
+      exists (SField p al n args dirs sp (s1 ++ z :: s2) :: flat_map sel_all s1 ++ l1), (l3 ++ flat_map sel_all s2).
+      rewrite flat_map_app. cbn [flat_map]. rewrite E. cbn [app]. rewrite <- !app_assoc. reflexivity.
+  - destruct Hy as [<-|[]]. exists [SSpread p n dirs], []. reflexivity.
+  - destruct Hy as [<-|Hy].
+    + exists [SInline p tc dirs sp sels], []. cbn [sel_sels app]. rewrite app_nil_r. reflexivity.
+    + apply in_flat_map in Hy. destruct Hy as [z [Hz Hy]]. rewrite Forall_forall in IH.
+      destruct (IH z Hz y Hy) as [l1 [l3 E]]. destruct (in_split z sels Hz) as [s1 [s2 ->]].
+      exists (SInline p tc dirs sp (s1 ++ z :: s2) :: flat_map sel_all s1 ++ l1), (l3 ++ flat_map sel_all s2).
+      rewrite flat_map_app. cbn [flat_map]. rewrite E. cbn [app]. rewrite <- !app_assoc. reflexivity.
+Qed.
+
+Lemma seg_sels L y : In y (sels_all L) -> exists l1 l3, sels_all L = l1 ++ sels_all (sel_sels y) ++ l3.
+Proof.
+  unfold sels_all at 1 2. intro Hy. apply in_flat_map in Hy. destruct Hy as [z [Hz Hy]].
+  destruct (seg_sel z y Hy) as [l1 [l3 E]]. destruct (in_split z L Hz) as [s1 [s2 ->]].
+  exists (flat_map sel_all s1 ++ l1), (l3 ++ flat_map sel_all s2).
+  rewrite flat_map_app. cbn [flat_map]. rewrite E. rewrite <- !app_assoc. reflexivity.
+Qed.
+
+Lemma seg_doc d x : In x d -> exists l1 l3, doc_selections d = l1 ++ sels_all (def_sels x) ++ l3.
+Proof.
+  intro Hx. destruct (in_split x d Hx) as [d1 [d2 ->]]. unfold doc_selections.
+  exists (flat_map (fun x => sels_all (def_sels x)) d1), (flat_map (fun x => sels_all (def_sels x)) d2).
+  rewrite flat_map_app. reflexivity.
+Qed.
+
+Lemma seg_selset d sp sels : In (Enter (NSelectionSet sp sels)) (lin_document d) ->
+  exists l1 l3, doc_selections d = l1 ++ sels_all sels ++ l3.
+Proof.
+  intro H. destruct (selset_in_doc d sp sels H) as [x [Hx [->|[y [Hy ->]]]]].
+  - apply seg_doc, Hx.
+  - destruct (seg_doc d x Hx) as [a [b E]]. destruct (seg_sels _ y Hy) as [l1 [l3 E2]].
+    exists (a ++ l1), (l3 ++ b). rewrite E, E2, <- !app_assoc. reflexivity.
+Qed.
+
+(* ------------------------------------------------------------------ counting *)
+Definition cnt (l : list selection) : nat := fold_left (fun n y => n + count_fields y) l 0.
+
+Lemma fold_sum {A} (f : A -> nat) l a : fold_left (fun n y => n + f y) l a = a + fold_left (fun n y => n + f y) l 0.
+Proof.
+  revert a. induction l as [|x r IH]; intro a; cbn [fold_left]; [lia|]. rewrite IH, (IH (0 + f x)). lia.
+Qed.
+
+Lemma fold_sum_In {A} (f : A -> nat) l x : In x l -> f x <= fold_left (fun n y => n + f y) l 0.
+Proof.
+  induction l as [|y r IH]; intro H; [destruct H|]. cbn [fold_left]. rewrite fold_sum.
+  destruct H as [->|H]; [lia|]. specialize (IH H). lia.
+Qed.
+
+Lemma cnt_cons y r : cnt (y :: r) = count_fields y + cnt r.
+Proof. unfold cnt. cbn [fold_left]. rewrite fold_sum. lia. Qed.
+
+Lemma cnt_app a b : cnt (a ++ b) = cnt a + cnt b.
+Proof. induction a as [|y r IH]; [reflexivity|]. cbn [app]. rewrite !cnt_cons, IH. lia. Qed.
+
+Lemma count_fields_sels x : is_field x = true -> count_fields x = S (cnt (sel_sels x)).
+Proof. destruct x; try discriminate. reflexivity. Qed.
+
+Lemma list_max_cons a l : list_max (a :: l) = Nat.max a (list_max l).
+Proof. reflexivity. Qed.
+
+Lemma sd_le_count x : sd x <= count_fields x.
+Proof.
+  induction x as [p al n args dirs sp sels IH|p n dirs|p tc dirs sp sels IH] using selection_ind'.
+  - cbn [sd count_fields]. fold (cnt sels). apply le_n_S.
+    induction IH as [|y r Hy Hr IHr]; [apply le_n|]. cbn [map]. rewrite list_max_cons, cnt_cons. lia.
+  - apply le_n.
+  - cbn [sd count_fields]. fold (cnt sels).
+    induction IH as [|y r Hy Hr IHr]; [apply le_n|]. cbn [map]. rewrite list_max_cons, cnt_cons. lia.
+Qed.
+
+Lemma maxd_le_cnt l : maxd l <= cnt l.
+Proof.
+  induction l as [|y r IH]; [apply le_n|]. unfold maxd in *. cbn [map]. rewrite list_max_cons, cnt_cons.
+  pose proof (sd_le_count y). lia.
+Qed.
+
+Lemma cnt_sel_sels x : cnt (sel_sels x) <= count_fields x.
+Proof. destruct x; cbn [sel_sels count_fields]; fold (cnt sels) || idtac; try (unfold cnt; cbn; lia); apply le_n. Qed.
+
+Lemma cnt_In x l : In x l -> count_fields x <= cnt l.
+Proof. apply (fold_sum_In count_fields). Qed.
+
+Lemma cnt_below x : forall y, In y (sel_all x) -> cnt (sel_sels y) <= count_fields x.
+Proof.
+  induction x as [p al n args dirs sp sels IH|p n dirs|p tc dirs sp sels IH] using selection_ind'; intros y Hy;
+    cbn [sel_all] in Hy.
+  - destruct Hy as [<-|Hy]; [apply cnt_sel_sels|].
+    apply in_flat_map in Hy. destruct Hy as [z [Hz Hy]]. rewrite Forall_forall in IH.
+    specialize (IH z Hz y Hy). pose proof (cnt_In z sels Hz). cbn [count_fields]. fold (cnt sels). lia.
+  - destruct Hy as [<-|[]]. apply cnt_sel_sels.
+  - destruct Hy as [<-|Hy]; [apply cnt_sel_sels|].
+    apply in_flat_map in Hy. destruct Hy as [z [Hz Hy]]. rewrite Forall_forall in IH.
+    specialize (IH z Hz y Hy). pose proof (cnt_In z sels Hz). cbn [count_fields]. fold (cnt sels). lia.
+Qed.
+
+Lemma cnt_below_sels L y : In y (sels_all L) -> cnt (sel_sels y) <= cnt L.
+Proof.
+  intro Hy. unfold sels_all in Hy. apply in_flat_map in Hy. destruct Hy as [z [Hz Hy]].
+  pose proof (cnt_below z y Hy). pose proof (cnt_In z L Hz). lia.
+Qed.
+
+Lemma doc_fields_def d x : In x d -> cnt (def_sels x) <= doc_fields d.
+Proof.
+  intro Hx. unfold doc_fields.
+  apply (fold_sum_In (fun x => match x with
+                               | DOp o => fold_left (fun n y => n + count_fields y) (o_sels o) 0
+                               | DFrag f => fold_left (fun n y => n + count_fields y) (fr_sels f) 0
+                               end) d x) in Hx.
+  destruct x; exact Hx.
+Qed.
+
+Lemma selset_depth d sp sels : In (Enter (NSelectionSet sp sels)) (lin_document d) -> maxd sels <= doc_fields d.
+Proof.
+  intro H. destruct (selset_in_doc d sp sels H) as [x [Hx [->|[y [Hy ->]]]]].
+  - pose proof (maxd_le_cnt (def_sels x)). pose proof (doc_fields_def d x Hx). lia.
+  - pose proof (maxd_le_cnt (sel_sels y)). pose proof (cnt_below_sels _ y Hy). pose proof (doc_fields_def d x Hx). lia.
+Qed.
+
+(* ------------------------------------------------------------------ hereditary hypotheses *)
+Lemma args_ok_of x :
+  (forall y, In y (sel_all x) -> is_field y = true -> nodup_names (map fst (sel_args y)) = true) -> args_ok x = true.
+Proof.
+  induction x as [p al n args dirs sp sels IH|p n dirs|p tc dirs sp sels IH] using selection_ind'; intro H;
+    cbn [args_ok].
+  - apply andb_true_intro. split.
+    + apply (H (SField p al n args dirs sp sels)); [left; reflexivity|reflexivity].
+    + apply forallb_forall. intros z Hz. rewrite Forall_forall in IH. apply (IH z Hz).
+      intros y Hy. apply H. cbn [sel_all]. right. apply in_flat_map. exists z. split; assumption.
+  - reflexivity.
+  - apply forallb_forall. intros z Hz. rewrite Forall_forall in IH. apply (IH z Hz).
+    intros y Hy. apply H. cbn [sel_all]. right. apply in_flat_map. exists z. split; assumption.
+Qed.
+
+Lemma args_ok_of_sels L :
+  (forall y, In y (sels_all L) -> is_field y = true -> nodup_names (map fst (sel_args y)) = true) ->
+  forallb args_ok L = true.
+Proof.
+  intro H. apply forallb_forall. intros z Hz. apply args_ok_of. intros y Hy. apply H.
+  unfold sels_all. apply in_flat_map. exists z. split; assumption.
+Qed.
+
+Lemma doc_selections_all d : sels_all (flat_map def_sels d) = doc_selections d.
+Proof. unfold sels_all, doc_selections. apply flat_map_flat_map'. Qed.
+
+Section Doc.
+  Variables (s : sdocument) (d : document).
+  Hypothesis Hwf : wf_schema s = true.
+  Hypothesis Hsf : spreads_in (flat_map def_sels d) = [].
+  Hypothesis Hnd : NoDup (map node_pos (filter (fun x => match x with SField _ _ _ _ _ _ _ => true | _ => false end)
+                                               (doc_selections d))).
+  Hypothesis Hargs : negb (violated R_UniqueArgumentNames s d) = true.
+
+  Lemma doc_args_ok y : In y (doc_selections d) -> is_field y = true -> nodup_names (map fst (sel_args y)) = true.
+  Proof.
+    intros Hy Fy. cbn [violated] in Hargs. apply negb_true_iff in Hargs. unfold v_unique_argument_names in Hargs.
+    apply orb_false_elim in Hargs. destruct Hargs as [H1 _].
+    assert (Hin : In y (map fst (field_events s d))).
+    { rewrite (field_events_selections s d (wf_query_entry_ok s Hwf)). apply filter_In. split; [exact Hy|exact Fy]. }
+    apply in_map_iff in Hin. destruct Hin as [fe [<- Hfe]].
+    assert (Hf : v_args_duplicated (sel_args (fst fe)) = false).
+    { apply not_true_is_false. intro Ht. assert (Hex : existsb (fun fe : selection * env => v_args_duplicated (sel_args (fst fe))) (field_events s d) = true).
+      { apply existsb_exists. exists fe. split; [exact Hfe|exact Ht]. }
+      rewrite Hex in H1. discriminate. }
+    unfold v_args_duplicated in Hf. apply negb_false_iff in Hf. exact Hf.
+  Qed.
+
+  Lemma selset_props sp sels : In (Enter (NSelectionSet sp sels)) (lin_document d) ->
+    sf_sels sels = true /\ NoDup (DS sels) /\ forallb args_ok sels = true /\ maxd sels <= doc_fields d.
+  Proof.
+    intro H. destruct (seg_selset d sp sels H) as [l1 [l3 E]].
+    split; [|split; [|split]].
+    - apply sf_sels_of_spreads. unfold spreads_in in Hsf |- *. rewrite doc_selections_all, E in Hsf.
+      rewrite !flat_map_app in Hsf. apply app_eq_nil in Hsf. destruct Hsf as [_ Hsf'].
+      apply app_eq_nil in Hsf'. apply Hsf'.
+    - rewrite E in Hnd. rewrite !filter_app, !map_app in Hnd. apply NoDup_segment in Hnd. exact Hnd.
+    - apply args_ok_of_sels. intros y Hy Fy. apply doc_args_ok; [|exact Fy].
+      rewrite E. apply in_or_app. right. apply in_or_app. left. exact Hy.
+    - apply (selset_depth d sp sels H).
+  Qed.
+
+  (* ---------------------------------------------------------------- the walk *)
+  Definition set_out (e : event) (c : ctx) : list verror :=
+    match e with
+    | Enter (NSelectionSet _ sels) =>
+        match mrun (merge_fuel d) s d (CWithinSelectionSet (current_parent_type c) sels) (mkMS [] [] []) with
+        | Some (ms, cs) => map (fun cf : conflict => err R_OverlappingFieldsCanBeMerged (fst cf ++ snd cf)) cs
+        | None => []
+        end
+    | _ => []
+    end.
+  Definition set_good (e : event) (c : ctx) : Prop :=
+    match e with
+    | Enter (NSelectionSet _ sels) =>
+        exists ms cs, mrun (merge_fuel d) s d (CWithinSelectionSet (current_parent_type c) sels) (mkMS [] [] [])
+                      = Some (ms, cs) /\ ms_compared ms = []
+    | _ => True
+    end.
+
+  Lemma ofm_fold tr : forall errs, (forall ec, In ec tr -> set_good (fst ec) (snd ec)) ->
+    fold_left (hh (ofm_step s d)) tr (mkOfm [] (mkRes errs false))
+    = mkOfm [] (mkRes (errs ++ flat_map (fun ec => set_out (fst ec) (snd ec)) tr) false).
+  Proof.
+    induction tr as [|[e c] r IH]; intros errs Hg; cbn [fold_left flat_map].
+    - rewrite app_nil_r. reflexivity.
+    - pose proof (Hg (e, c) (or_introl eq_refl)) as Hec. cbn [fst snd] in Hec.
+      assert (Hr : forall ec, In ec r -> set_good (fst ec) (snd ec)) by (intros ec Hin; apply Hg; right; exact Hin).
+      unfold hh at 2. cbn [fst snd].
+      destruct e as [n|n]; [destruct n|]; cbn [ofm_step set_out app]; try apply (IH errs Hr).
+      cbn [set_good] in Hec. destruct Hec as [ms [cs [E Hc]]].
+      cbn [ofm_compared ofm_res r_errors r_oof]. rewrite E, Hc. rewrite (IH _ Hr), app_assoc. reflexivity.
+  Qed.
+
+  Definition set_spec (e : event) (a : answers) : bool :=
+    match e with
+    | Enter (NSelectionSet _ sels) => negb (fields_in_set_can_merge s d (collected s d (a_parent a) sels))
+    | _ => false
+    end.
+
+  Lemma event_ok e c : In (e, c) (ctr_document s d ctx0) ->
+    set_good e c /\
+    negb (match set_out e c with [] => true | _ => false end) = set_spec e (answers_of c).
+  Proof.
+    intro Hin.
+    assert (He : In e (lin_document d)).
+    { rewrite <- (ctr_document_events s d ctx0). apply in_map_iff. exists (e, c). split; [reflexivity|exact Hin]. }
+    destruct e as [n|n]; [destruct n|]; try (split; [exact I|reflexivity]).
+    destruct (selset_props sp items He) as [H1 [H2 [H3 H4]]].
+    destruct (within_set_ok s d (current_parent_type c) items H1 H2 H3 H4) as [ms [cs [E [Hc N]]]].
+    split.
+    - exists ms, cs. split; assumption.
+    - cbn [set_out set_spec]. rewrite E. change (a_parent (answers_of c)) with (current_parent_type c).
+      rewrite <- N. destruct cs; reflexivity.
+  Qed.
+
+  Lemma merge_spreadfree_doc :
+    run_alone R_OverlappingFieldsCanBeMerged s d <> [] <-> violated R_OverlappingFieldsCanBeMerged s d = true.
+  Proof.
+    unfold run_alone. cbn [run_rule violated]. rewrite visit_fold. cbn [snd].
+    rewrite (ofm_fold (ctr_document s d ctx0) []) by (intros [e c] Hin; apply (event_ok e c Hin)).
+    cbn [ofm_res r_errors app].
+    rewrite (no_cycles_sf d Hsf). cbn [negb andb].
+    rewrite flat_map_nonempty_existsb.
+    rewrite (existsb_ext_in' _ (fun ec : event * ctx => set_spec (fst ec) (answers_of (snd ec))))
+      by (intros [e c] Hin; apply (event_ok e c Hin)).
+    rewrite (existsb_ctr_annot s d (wf_query_entry_ok s Hwf) set_spec).
+    unfold v_overlapping_fields, selection_sets. rewrite existsb_flat_map'.
+    rewrite (existsb_ext_in' _ (fun ea : aev =>
+               existsb (fun ps : option type_def * list selection =>
+                          negb (fields_in_set_can_merge s d (collected s d (fst ps) (snd ps))))
+                       match fst ea with
+                       | Enter (NSelectionSet _ sels) => [(a_parent (snd ea), sels)]
+                       | _ => []
+                       end)); [reflexivity|].
+    intros [e a] _. cbn [fst snd]. destruct e as [n|n]; [destruct n|]; cbn [set_spec existsb fst snd]; try reflexivity.
+    rewrite orb_false_r. reflexivity.
+  Qed.
+End Doc.
+
+Lemma merge_spreadfree_iff : forall s d,
+  wf_schema s = true -> spreads_in (flat_map def_sels d) = [] ->
+  NoDup (map node_pos (filter (fun x => match x with SField _ _ _ _ _ _ _ => true | _ => false end) (doc_selections d))) ->
+  negb (violated R_UniqueArgumentNames s d) = true ->
+  (run_alone R_OverlappingFieldsCanBeMerged s d <> [] <-> violated R_OverlappingFieldsCanBeMerged s d = true).
+Proof. exact merge_spreadfree_doc. Qed.
